@@ -369,6 +369,44 @@ pub(crate) fn show_toks(v: &[(u8, u32)]) -> String {
     format!("[{}]", items.join(" "))
 }
 
+/// C03's clause seen from the builders: while a callback is running the arena destructs no value
+/// and releases no allocation.  `bracket` are the allocator events of the callback, `b` the
+/// builder's block, `destructed` the tokens destructed during the callback, `callback_dropped`
+/// whether the callback itself dropped / abandoned the builder (then exactly that builder's parts
+/// and block may go — judged by the C18 monitors — but still nothing that existed before).
+pub(crate) fn c03_monitor(bracket: &[Ev], b: usize, destructed: &[(u8, u32)], callback_dropped: bool) -> Option<String> {
+    let born: Vec<usize> = bracket.iter().filter_map(|e| if let Ev::Alloc { addr, .. } = e { Some(*addr) } else { None }).collect();
+    let foreign: Vec<(usize, usize)> = bracket
+        .iter()
+        .filter_map(|e| match e {
+            Ev::Dealloc { addr, size, align, .. } if !born.contains(addr) => Some((*size, *align)),
+            _ => None,
+        })
+        .collect();
+    let own_released = bracket.iter().any(|e| matches!(e, Ev::Dealloc { addr, .. } if *addr == b && b != 0));
+    let mut what = vec![];
+    if !foreign.is_empty() {
+        what.push(format!("released {} allocation(s) that existed before the callback {foreign:?}", foreign.len()));
+    }
+    if !callback_dropped {
+        if !destructed.is_empty() {
+            what.push(format!("destructed {}", show_toks(destructed)));
+        }
+        if own_released {
+            what.push("released the block of the value being built (the Gc handed out is dangling)".to_string());
+        }
+    }
+    if what.is_empty() {
+        None
+    } else {
+        Some(format!(
+            "C03: while a callback was running{} the arena {}",
+            if callback_dropped { "" } else { " (and the callback itself dropped nothing)" },
+            what.join(" and ")
+        ))
+    }
+}
+
 // ---- shared measurement ------------------------------------------------------------------
 #[allow(clippy::too_many_arguments)]
 fn builder_case(
@@ -442,6 +480,9 @@ fn builder_case(
             // ---- implementation-side monitors (independent of the model) ----
             let cr = created();
             let dr = drops();
+            if let Some(m) = c03_monitor(&evs, base, &dr.iter().map(|x| (x.1, x.2)).collect::<Vec<_>>(), !act.completes(n)) {
+                emit_monitor_now(&m);
+            }
             if !act.completes(n) {
                 out.check(dg == 0 && dd == 0.0, || {
                     format!("metrics changed by an abandoned builder: total_gc_count {dg:+}, allocation_debt {dd:+}")
@@ -629,5 +670,58 @@ pub fn str_grid(cx: &mut Cx) {
             seen.push(act);
             builder_case(cx, "str", false, (0, 1, 1, 1), n, false, false, act, |mc, root, run| str_typed(mc, root, n, act, run));
         }
+    }
+}
+
+// ---- the crate's one-call constructors (they run the same builders inside) -----------------
+pub fn ctor_grid(cx: &mut Cx) {
+    fn collectable<E: Elem + Copy + for<'a> gc_arena::Collect<'a>>(cx: &mut Cx, n: usize) {
+        let l = (0, 1, size_of::<E>(), align_of::<E>());
+        builder_case(cx, "slice", false, l, n, false, false, Act::Copy(n), |mc, root, run| {
+            let src: Vec<E> = (0..n).map(E::make).collect();
+            let r = catch_unwind(AssertUnwindSafe(|| {
+                let gc = on(|| gc_arena::GcSlice::new_slice(mc, &src));
+                run.v = Gc::as_ptr(gc) as *const E as usize;
+                run.completed = true;
+                run.contents_ok = Some(gc.len() == n && gc.iter().enumerate().all(|(i, e)| e.ok(i)));
+                root.keep.push(Gc::erase(gc));
+            }));
+            run.panicked = r.is_err();
+        });
+    }
+    fn statik<E: Elem + Copy>(cx: &mut Cx, n: usize) {
+        let l = (0, 1, size_of::<E>(), align_of::<E>());
+        builder_case(cx, "slice", true, l, n, false, false, Act::Copy(n), |mc, root, run| {
+            let src: Vec<E> = (0..n).map(E::make).collect();
+            let r = catch_unwind(AssertUnwindSafe(|| {
+                let gc = on(|| gc_arena::GcSlice::new_slice_static(mc, &src));
+                run.v = Gc::as_ptr(gc) as *const E as usize;
+                run.completed = true;
+                run.contents_ok = Some(gc.len() == n && gc.iter().enumerate().all(|(i, e)| e.ok(i)));
+                root.keep.push(Gc::erase(gc));
+            }));
+            run.panicked = r.is_err();
+        });
+    }
+    for n in [0usize, 1, 2, 5, 6] {
+        collectable::<u8>(cx, n);
+        collectable::<u32>(cx, n);
+        collectable::<()>(cx, n);
+        statik::<u8>(cx, n);
+        statik::<u32>(cx, n);
+        statik::<()>(cx, n);
+        statik::<V64<64>>(cx, n);
+        statik::<V4096<1>>(cx, n);
+        builder_case(cx, "str", false, (0, 1, 1, 1), n, false, false, Act::Copy(n), |mc, root, run| {
+            let s: String = (0..n).map(|i| (b'a' + (i % 26) as u8) as char).collect();
+            let r = catch_unwind(AssertUnwindSafe(|| {
+                let gc = on(|| gc_arena::GcStr::new_str(mc, &s));
+                run.v = Gc::as_ptr(gc) as *const u8 as usize;
+                run.completed = true;
+                run.contents_ok = Some(&*gc == s.as_str());
+                root.keep.push(Gc::erase(gc));
+            }));
+            run.panicked = r.is_err();
+        });
     }
 }
